@@ -473,8 +473,10 @@ mod mutant {
 
     pub fn combine_validations(mu: u32, results: Vec<ValidationResult>) -> ValidationResult {
         let mut all_errors = Vec::new();
+        let mut failed = false;
         for result in results {
             if let Err(mut errors) = result {
+                failed = true;
                 if mu == 12 {
                     return Err(errors); // stops at the first failing part
                 }
@@ -486,7 +488,11 @@ mod mutant {
                 }
             }
         }
-        if all_errors.is_empty() { Ok(()) } else { Err(all_errors) }
+        if mu == 14 {
+            // the defect repaired by 2f7c47a: a failed part without errors counts as success
+            return if all_errors.is_empty() { Ok(()) } else { Err(all_errors) };
+        }
+        if failed { Err(all_errors) } else { Ok(()) }
     }
 }
 
